@@ -10,7 +10,8 @@
 (*     and of the __nutils_hash__ properties of Immutable / Singleton /    *)
 (*     DataClass / arraydata / frozendict / frozenmultiset /               *)
 (*     hashable_function (types.py 235-240, 361-366, 446-451, 530-535,     *)
-(*     713) transcribed branch by branch.  SHA-1 is modelled as an         *)
+(*     713) and of the key of cache.function (cache.py 179-197)            *)
+(*     transcribed branch by branch.  SHA-1 is modelled as an         *)
 (*     injective constructor <<"H", input>>; the input is a sequence of    *)
 (*     items: <<"raw", text>> (adjacent raw texts are concatenated, so     *)
 (*     that boundary ambiguities of un-delimited fields are visible),      *)
@@ -84,6 +85,11 @@ ClassTab ==
  @@ ("S1@m1" :> Cl("S1", "vfm1", "S1", "0", "Singleton", <<"a", "b">>, 1))
  @@ ("S1@m2" :> Cl("S1", "vfm2", "S1", "0", "Singleton", <<"a", "b">>, 1))
  @@ ("S2@m1" :> Cl("S2", "vfm1", "S2", "0", "Singleton", <<"a", "b">>, 1))
+    \* functions  def f(a, b=2)  memoised with nutils.cache.function(version=ver)
+ @@ ("f1@m1" :> Cl("f1", "vfm1", "f1", "0", "function", <<"a", "b">>, 1))
+ @@ ("f1@m2" :> Cl("f1", "vfm2", "f1", "0", "function", <<"a", "b">>, 1))
+ @@ ("f1v1@m1" :> Cl("f1", "vfm1", "f1", "1", "function", <<"a", "b">>, 1))
+ @@ ("f2@m1" :> Cl("f2", "vfm1", "f2", "0", "function", <<"a", "b">>, 1))
     \* nutils.types.DataClass subclasses   a: object; b: object = 2
  @@ ("D1@m1" :> Cl("D1", "vfm1", "D1", "0", "DataClass", <<"a", "b">>, 1))
  @@ ("D1@m2" :> Cl("D1", "vfm2", "D1", "0", "DataClass", <<"a", "b">>, 1))
@@ -156,6 +162,9 @@ Enc(v) ==
           IN Sha(AddSorted(Raw("nutils.types.frozenmultiset~"),
                            [i \in DOMAIN items |-> <<<<"raw", Count4(cnt(items[i]))>>, Enc(items[i])>>]))
     [] k = "hfunc" -> Enc(Tup(<<S("hashable_function"), c[1]>>))
+    [] k = "call" ->   \* cache.function (cache.py 179-197): sha1(func_key) + hash of every canonical positional argument
+          LET fi == Classes[p[1]] IN
+          Sha(EncKids(<<Sha(Raw(fi.mod \o "." \o fi.qual \o ":" \o fi.ver))>>, c))
     [] k = "opaque" -> Sha(Raw(p[1]))               \* a custom __nutils_hash__ that is not modelled: stands for itself
        \* ---- numpy.generic is normalised to the python scalar
     [] k = "npscalar" -> Enc(Sc(p[2], p[3]))
@@ -187,7 +196,7 @@ Canon(v) ==
   CASE k \in {"none", "ellipsis", "bool", "int", "float", "complex", "str", "bytes", "type", "buf", "opaque"} -> v
     [] k = "npscalar" -> Sc(p[2], p[3])
     [] k \in {"tuple", "list", "nt", "dc", "method", "hfunc", "pair"} -> T(k, p, CanonKids(c))
-    [] k = "inst" -> T(k, <<p[1]>>, CanonKids(c))                       \* route erased
+    [] k \in {"inst", "call"} -> T(k, <<p[1]>>, CanonKids(c))             \* route erased
     [] k \in {"dict", "fdict", "set", "frozenset"} -> T(k, <<>>, {Canon(x) : x \in ToSet(c)})
     [] k = "fms" -> T(k, <<>>, BagOfSeq(CanonKids(c)))
     [] k \in {"ndarray", "arraydata"} -> T(k, <<p[1], p[2]>>, CanonKids(c))  \* route (memory layout, source dtype) erased
@@ -201,6 +210,11 @@ Grey(v, w) == \/ Kind(v) = "buf" \/ Kind(w) = "buf"
               \/ {Kind(v), Kind(w)} = {"hfunc", "tuple"}
               \/ /\ Kind(v) = Kind(w) /\ Pay(v) = Pay(w) /\ Len(Kids(v)) = Len(Kids(w)) /\ Len(Kids(v)) > 0
                  /\ \A i \in DOMAIN Kids(v) : Kids(v)[i] = Kids(w)[i] \/ Grey(Kids(v)[i], Kids(w)[i])
+
+\* python == is reflexive on the value (no NaN inside): needed where python counts equal items (multisets)
+RECURSIVE Reflexive(_)
+Reflexive(v) == /\ v # F("nan")
+                /\ \A i \in DOMAIN Kids(v) : Reflexive(Kids(v)[i])
 
 \* python-hashable (may be a dict key, a set element, an argument of an Immutable)
 RECURSIVE Hashable(_)
